@@ -7,7 +7,7 @@
 (* reported (REJECT line) and the machine resynchronises at the next       *)
 (* event, so that one rejection does not hide the rest of the trace.       *)
 (***************************************************************************)
-EXTENDS Wire, Json, IOUtils, Sequences, Naturals, FiniteSets, TLC
+EXTENDS Tables, Json, IOUtils, TLC
 
 Log == ndJsonDeserialize(IOEnv.TRACE)
 Types == JsonDeserialize(IOEnv.TYPES)
@@ -21,7 +21,7 @@ vars == <<l, lastW, lastR, nrej>>
 
 Has(r, f) == f \in DOMAIN r
 T(tid) == Types[tid]
-Range(f) == {f[x] : x \in DOMAIN f}
+RangeOf(f) == {f[x] : x \in DOMAIN f}
 
 \* ---- value comparison modulo container order / handle projections --------
 RECURSIVE HasUMap(_)
@@ -74,7 +74,7 @@ SameVal(S, a, b) == IF S.k \in {"bool", "char", "int", "enum", "flt", "str"} THE
 \* status a reader kind returns when its own data runs out (docs: Basic Reader Interface)
 SrcCode(rk) == IF rk.k \in {"sstream", "fstream"} THEN 14 ELSE 12
 MapErr(errs, rk) == {IF x = E_Src THEN SrcCode(rk) ELSE x : x \in errs}
-HT(e) == IF Has(e, "ht") THEN [r \in {p[1] : p \in Range(e.ht)} |-> (CHOOSE p \in Range(e.ht) : p[1] = r)[2]]
+HT(e) == IF Has(e, "ht") THEN [r \in {p[1] : p \in RangeOf(e.ht)} |-> (CHOOSE p \in RangeOf(e.ht) : p[1] = r)[2]]
          ELSE <<>>
 
 ItemRefs(it) == IF Has(it, "refs") THEN it.refs ELSE <<>>
@@ -222,6 +222,21 @@ C15W(e) ==
     \cup (IF it.st = 0 THEN Tag(off + it.n <= Len(e.out) /\ MatchBytes(x.b, SubSeq(e.out, off + 1, off + it.n)), "reference-encoding")
           ELSE {}))
 
+\* C07: data written with one definition of a table is read by another definition as Project prescribes,
+\* and the reader ends exactly after the table (a sentinel value follows on the stream)
+C07R(e) ==
+  IF lastW = <<>> \/ e.src # lastW.out \/ Len(e.items) # Len(lastW.items) THEN {"binding"}
+  ELSE UnionOver(Len(e.items), LAMBDA i :
+       LET it == e.items[i]
+           w == lastW.items[i]
+           Sw == T(w.tid)
+           Sr == T(it.tid) IN
+       Tag(w.st = 0, "write-refused")
+       \cup Tag(it.st = 0, "status")
+       \cup (IF it.st = 0 /\ w.st = 0
+             THEN Tag(Has(it, "v") /\ SameVal(Sr, it.v, Conv(Sw, Sr, w.v)), "projection") \cup Tag(it.used = w.n, "position")
+             ELSE {}))
+
 \* ---- dispatch ---------------------------------------------------------------
 HasPrior(e) == \E i \in 1..Len(e.items) : Has(e.items[i], "prior")
 
@@ -234,6 +249,8 @@ Fails(e) ==
          [] PROP = "C04" -> IF e.e = "R" THEN C04R(e) ELSE {}
          [] PROP = "C05" -> IF e.e = "RC" THEN C05RC(e) ELSE {}
          [] PROP = "C06" -> IF e.e = "WC" THEN C06WC(e) ELSE {}
+         [] PROP = "C07" -> IF e.e = "R" THEN C07R(e) ELSE {}
+         [] PROP = "C08" -> IF e.e = "R" THEN C04R(e) ELSE {}
          [] PROP = "C10" -> IF e.e = "RF" THEN C10Runs(e, FALSE) ELSE IF e.e = "WF" THEN C10Runs(e, TRUE) ELSE {}
          [] PROP = "C11" -> IF e.e = "R" /\ HasPrior(e) THEN C11R(e) ELSE {}
          \* reads: tag check, resolution and verbatim resolution errors as Dec prescribes (the variant-index
